@@ -341,7 +341,9 @@ pub fn canon_in(bs: Vec<B>, in_container: bool) -> Vec<B> {
             B::Code(l, t) => canon_code(&l, &t),
             x => x,
         })
-        .filter(|b| !(in_container && says_nothing(b)) && !matches!(b, B::List(_, v) if v.is_empty()) && !matches!(b, B::Quote(v) if v.is_empty()))
+        // (a paragraph without any text - the parser reports one for a whitespace line behind a link
+        // reference definition - carries nothing at any level)
+        .filter(|b| !(in_container && says_nothing(b)) && !matches!(b, B::Para(t) if t.is_empty()) && !matches!(b, B::List(_, v) if v.is_empty()) && !matches!(b, B::Quote(v) if v.is_empty()))
         .collect()
 }
 
@@ -356,7 +358,9 @@ pub fn canon_out(bs: Vec<B>, in_container: bool) -> Vec<B> {
             B::Code(l, t) => canon_code(&l, &t),
             x => x,
         })
-        .filter(|b| !(in_container && says_nothing(b)) && !matches!(b, B::List(_, v) if v.is_empty()) && !matches!(b, B::Quote(v) if v.is_empty()))
+        // (a paragraph without any text - the parser reports one for a whitespace line behind a link
+        // reference definition - carries nothing at any level)
+        .filter(|b| !(in_container && says_nothing(b)) && !matches!(b, B::Para(t) if t.is_empty()) && !matches!(b, B::List(_, v) if v.is_empty()) && !matches!(b, B::Quote(v) if v.is_empty()))
         .collect()
 }
 
